@@ -39,6 +39,7 @@ def run(ctx):
     ctx.trusted += ["clvm-traits (Curried/Singleton) FromClvm/ToClvm", "tree_hash (C17)"]
     ctx.assumptions += ["N: the rewritten solution runs and emits the same coins; injectivity of the fingerprint beyond its framing"]
     c19_1_2(ctx)
+    c19_supports(ctx)
     c01_mempool.run(ctx, rule="C19.3")
     c19_4(ctx)
 
@@ -118,6 +119,36 @@ def c19_1_2(ctx):
             ctx.ob(R2, "wheel-roles", ok, "the Python wrapper passes (puzzle, solution, coin, new_coin, new_parent) in matching roles", found=a[1:])
         else:
             ctx.missing(R2, "wheel-roles", "call not found")
+
+
+def c19_supports(ctx):
+    """supports_fast_forward answers by attempting the real rewrite with the spend's own puzzle, solution and coin"""
+    R2 = "C19.2"
+    w = ctx.fb.fns.get("chia_rs::api::supports_fast_forward")
+    if not w:
+        return ctx.missing(R2, "supports_fast_forward", "not found")
+    wb = Body(w, ctx.fb)
+    ctx.touched(wb.path)
+    rows = set()
+    for ev, ex in P.enumerate_paths(wb):
+        if ex[0] != "return":
+            continue
+        r = apnf.N(P.ret_of(ev))
+        rows.add(str(r)[:4000])
+    trues = [r for r in rows if r not in ("0", "False", "false")]
+    ok = len(trues) == 1
+    if ok:
+        r = trues[0]
+        ok = r.startswith("('Result::is_ok', ('fast_forward_singleton',") and "node_from_bytes" in r
+        c = [t for bi, n, t in wb.calls() if n == CC + "fast_forward::fast_forward_singleton"]
+        ok = ok and len(c) == 1
+        if ok:
+            a = [str(apnf.N(strip_all(wb.operand_term(x)))) for x in c[0]["args"]]
+            ok = ".puzzle_reveal" in a[1] and ".solution" in a[2] and a[3] == str((".coin", "spend")) and \
+                "Coin::Coin" in a[4] and "coin_id" in a[4] and "Coin::Coin" in a[5] and "coin_id" not in a[5]
+            ctx.ob(R2, "supports_fast_forward", ok, "supports_fast_forward = fast_forward_singleton(spend.puzzle, spend.solution, spend.coin, child-of-dummy, dummy).is_ok()", found=[x[:120] for x in a[1:]])
+            return
+    ctx.ob(R2, "supports_fast_forward", False, "supports_fast_forward = fast_forward_singleton(..).is_ok()", found=sorted(rows)[:3])
 
 
 def _ne(s):
